@@ -1,9 +1,9 @@
 #!/bin/bash
 # C09: the ignore test is applied to the input paths themselves (fclones/src/walk.rs visit_entry),
 # so a rule of the user's global git excludes file silently drops a directory/file given explicitly.
-CHECKOUT=${1:-/tmp/hunt/n4}
-F=/tmp/hunt/n4/target/debug/fclones
-T=$(mktemp -d /tmp/hunt/n4-out/r2XXXXXX) || exit 2
+CHECKOUT=${1:-/repo}
+F=${1:-/repo}/target/debug/fclones
+T=$(mktemp -d /tmp/r2XXXXXX) || exit 2
 trap 'rm -rf "$T"' EXIT
 mkdir -p "$T/home/.config/git" "$T/proj/build"
 printf 'build/\n*.bak\n' > "$T/home/.config/git/ignore"     # a typical global excludes file
